@@ -1,9 +1,10 @@
 CONSTANTS
   ProgOf <- FamProgOf
-  MaxSteps = 20000
+  MaxSteps = 200000
   CtxDepth = 2
   HistLen = 4
   EmitOn = TRUE
+  Stress = FALSE
 INIT Init
 NEXT Next
 INVARIANTS TerminalIsClassified ErrorHasCause DoneIsClean ScopesWellFormed HeapWellFormed CallFramesConsistent LoopsEnd EmitInv
